@@ -299,7 +299,10 @@ CHECKS.update({
         'geometries and buffers directly or with a mask saved, reloaded and applied to a second dataset with other data; every '
         'variable (float, int, int with _FillValue incl. 0, int with missing_value, any grid kind, extra dimensions in any '
         'position, non-spatial, coordinates, attributes) is compared with what the property demands, computed independently '
-        'from the mask, and the crop plan / kept elements are compared with the model.',
+        'from the mask, and the crop plan / kept elements are compared with the model.  Model AttrMerge.v holds utils.dataset_like / _update_no_clobber for the attributes and encoding of a variable of the '
+        'reassembled dataset: C08_attributes_pass_through, C08_update_no_clobber (and, in C09, C09_result_can_be_saved with '
+        'C09_old_dataset_like_refuted for the code before d4bc755); per run 60 (600) sample / reassembled pairs with every mixture '
+        'of names held as attribute or encoding entry are put through utils.dataset_like and compared with the model.',
         'Trusted: Coq kernel; model Clip.v.  PARTIAL: the netCDF write / open_mfdataset round trip inside apply_clip_mask is '
         'not modelled (values are compared after it, under xarray\'s default decoding).',
         'DESIGN.md section 4 C08'),
